@@ -166,7 +166,28 @@ func (sc *L2Scenario) c16Step(binfoID uint64) gop {
 			to = e.ModAddr[ModFeeCol].String() // blocked account: refunded
 		}
 		amt := big.NewInt(int64(r.Intn(60)))
-		return gop{Op: sc.Deposit(sender, seq, to, r.Intn(2), amt, Hook{Kind: "none"})}
+		di := r.Intn(2)
+		hook := Hook{Kind: "none"}
+		switch r.Intn(6) {
+		case 0: // a signed hook tx of the recipient forwarding part of the deposit
+			signer := uint64(1 + r.Intn(6))
+			to = e.User(signer).Str
+			amt = big.NewInt(int64(10 + r.Intn(50)))
+			txSeq := e.AccSeq(signer)
+			if r.Chance(10) {
+				txSeq++
+			}
+			sends := []HookSend{{To: uint64(1 + r.Intn(6)), Denom: sc.L2Denoms[di], Amt: big.NewInt(int64(1 + r.Intn(12)))}}
+			if r.Chance(30) {
+				sends = append(sends, HookSend{To: uint64(1 + r.Intn(6)), Denom: sc.L2Denoms[di], Amt: big.NewInt(int64(1 + r.Intn(70)))})
+			}
+			hook = e.MakeHookTx(signer, txSeq, !r.Chance(10), sends)
+		case 1:
+			if r.Chance(30) {
+				hook = Hook{Kind: "garbage", Raw: []byte{1, 2, 3}}
+			}
+		}
+		return gop{Op: sc.Deposit(sender, seq, to, di, amt, hook)}
 	case 1: // withdrawal
 		u := e.User(uint64(1 + r.Intn(6)))
 		d := c.Track.Denoms[r.Intn(len(c.Track.Denoms))]
@@ -177,12 +198,37 @@ func (sc *L2Scenario) c16Step(binfoID uint64) gop {
 		return gop{Op: L2Op{Kind: "send", FromID: from, ToID: to, Denom: d, Amt: big.NewInt(int64(1 + r.Intn(30)))}}
 	case 3: // params
 		ps, _ := e.K.GetParams(e.Ctx)
-		np := &L2Params{Admin: ps.Admin, MaxV: uint64(1 + r.Intn(4)), Hist: uint64(r.Intn(4)), MinGas: c.Params.MinGas, Whitelist: []string{}, HookGas: ps.HookMaxGas}
+		np := &L2Params{Admin: ps.Admin, MaxV: uint64(1 + r.Intn(5)), Hist: uint64(r.Intn(4)), MinGas: c.Params.MinGas, Whitelist: []string{}, HookGas: ps.HookMaxGas}
+		// boundary values of every field
+		switch r.Intn(4) {
+		case 0:
+			np.HookGas = []uint64{0, 1, 1000000, 1 << 62}[r.Intn(4)]
+		case 1:
+			np.HookGas = 0
+		}
+		if r.Chance(30) { // MaxValidators = the current number of stored validators (0 is invalid)
+			vs, _ := e.K.GetAllValidators(e.Ctx)
+			np.MaxV = uint64(len(vs))
+		}
+		if r.Chance(20) {
+			np.Hist = 0
+		}
+		switch r.Intn(5) {
+		case 0:
+			np.MinGas = []GasPrice{}
+		case 1: // several entries (sorted by denom), one a tiny fraction
+			np.MinGas = []GasPrice{{"unative", big.NewInt(1)}, {"uusdc", big.NewInt(150000000000000000)}}
+		case 2:
+			np.MinGas = []GasPrice{{"aaa", big.NewInt(2500000000000000000)}, {"unative", big.NewInt(3)}, {"zzz", new(big.Int).Exp(big.NewInt(10), big.NewInt(30), nil)}}
+		}
 		if r.Chance(30) {
 			np.Admin = e.User(uint64(1 + r.Intn(6))).Str
 		}
-		if r.Chance(25) {
+		switch r.Intn(4) {
+		case 0:
 			np.Whitelist = []string{e.User(uint64(1 + r.Intn(6))).Str}
+		case 1:
+			np.Whitelist = []string{e.User(1).Str, e.User(4).Str, e.User(6).Str}
 		}
 		n := 1 + r.Intn(3)
 		for j := 0; j < n; j++ {
@@ -223,7 +269,7 @@ type bonded struct {
 	power int64
 }
 
-func runC16L2(seed uint64, id int, histLen, probeLen int, boundary bool, rep *Report) (string, bool) {
+func runC16L2(seed uint64, id int, histLen, probeLen int, boundary, manyVals bool, rep *Report) (string, bool) {
 	sc := NewL2Scenario(seed, id, false)
 	e := sc.Env
 	c := sc.Case
@@ -239,12 +285,30 @@ func runC16L2(seed uint64, id int, histLen, probeLen int, boundary bool, rep *Re
 			return r, ups
 		}
 		r := e.L2Exec(g.Op)
+		if g.Op.Kind == "fdep" && g.Op.Hook.Kind != "none" {
+			rep.Hist("fdep-with-hook-data")
+		}
 		if r.OK {
 			rep.Hist(g.Op.Kind + ":OK")
 		} else {
 			rep.Hist(g.Op.Kind + ":ERR")
 		}
 		return r, nil
+	}
+	if manyVals { // 3..5 bonded validators: the order of the initial updates matters
+		np := &L2Params{Admin: c.Params.Admin, Execs: c.Params.Execs, MaxV: 5, Hist: c.Params.Hist, MinGas: c.Params.MinGas, Whitelist: []string{}, HookGas: c.Params.HookGas}
+		pre := []gop{{Op: L2Op{Kind: "params", Sender: e.Auth, Params: np}}}
+		nv := 3 + sc.R.Intn(3)
+		perm := []uint64{3, 1, 5, 2, 4}
+		for i := 0; i < nv; i++ {
+			pre = append(pre, gop{Op: L2Op{Kind: "addval", Sender: e.Auth, OpID: perm[i], KeyID: perm[(i+2)%5]}})
+		}
+		pre = append(pre, gop{End: true})
+		sc.register(e.Auth)
+		for _, g := range pre {
+			do(g)
+			ops = append(ops, g)
+		}
 	}
 	for i := 0; i < histLen; i++ {
 		g := sc.c16Step(sc.BridgeID)
@@ -278,6 +342,9 @@ func runC16L2(seed uint64, id int, histLen, probeLen int, boundary bool, rep *Re
 	if gs.BridgeInfo != nil {
 		rep.Hist("l2-state:bridge-info")
 	}
+	rep.Hist(fmt.Sprintf("l2-state:hook-max-gas=%d", gs.Params.HookMaxGas))
+	rep.Hist(fmt.Sprintf("l2-state:min-gas-entries=%d", len(gs.Params.MinGasPrices)))
+	rep.Hist(fmt.Sprintf("l2-state:whitelist=%d", len(gs.Params.FeeWhitelist)))
 	// expected initial updates: the bonded set of the ORIGINAL instance with its last powers
 	var want []bonded
 	err := e.K.IterateLastValidatorPowers(e.Ctx, func(op []byte, power int64) (bool, error) {
@@ -346,7 +413,20 @@ func runC16L2(seed uint64, id int, histLen, probeLen int, boundary bool, rep *Re
 		internOff = true
 		d := map[string]string{"returned": e3.updatesOv(ups).Coq(), "bonded": (OL{wantOv}).Coq()}
 		internOff = false
-		viol(len(ops), "C16:l2-initial-updates", "the validator updates returned by InitGenesis are not the bonded set with its last powers", d)
+		what := "the validator updates returned by InitGenesis are not the bonded set with its last powers"
+		a, b := []string{}, []string{}
+		for _, x := range upsOv.(OL).V {
+			a = append(a, x.Coq())
+		}
+		for _, x := range wantOv {
+			b = append(b, x.Coq())
+		}
+		sort.Strings(a)
+		sort.Strings(b)
+		if strings.Join(a, ";") == strings.Join(b, ";") {
+			what = "the validator updates returned by InitGenesis are the bonded set but NOT in the order of the last-power table (store order)"
+		}
+		viol(len(ops), "C16:l2-initial-updates", what, d)
 	}
 	json2, err := e3.Enc.Marshaler.MarshalJSON(e3.K.ExportGenesis(e3.Ctx))
 	if err != nil || !bytes.Equal(json1, json2) {
@@ -400,7 +480,11 @@ func genC16L2(seed uint64, tier, outdir string) *Report {
 		if k%8 == 7 {
 			hl = 6
 		}
-		text, nt := runC16L2(seed*100019+uint64(k), id, hl, probeLen, k%3 != 2, rep)
+		many := k%4 == 1
+		if many && hl > 20 {
+			hl = 20 // keep the validators of the prefix until the export
+		}
+		text, nt := runC16L2(seed*100019+uint64(k), id, hl, probeLen, k%3 != 2, many, rep)
 		rep.CountCase(text, nt)
 		if k == 0 {
 			rep.Sample(map[string]interface{}{"kind": "random L2 schedule, then export/validate/import/export + probes (case text, truncated)", "case": text[:min(len(text), 1500)]})
